@@ -5,14 +5,22 @@ ID="$1"; X="$2"; WT=/tmp/wt/$ID; D=/tmp/seeded/$ID/$X
 export CARGO_TARGET_DIR=$WT/target CARGO_NET_OFFLINE=true
 cd $WT || exit 2
 git checkout -q -- . ; git clean -fdq -e target
-demo=$D/demo.rs
-if grep -q "tx3_cardano" $demo; then CR=tx3-cardano; elif grep -q "tx3_resolver" $demo; then CR=tx3-resolver; elif grep -q "tx3_lang" $demo; then CR=tx3-lang; else CR=tx3-tir; fi
-mkdir -p crates/$CR/tests
 git apply $D/patch.diff || { echo "$ID/$X: PATCH FAILS"; exit 1; }
 SUITE=$(cargo test --workspace --offline 2>&1 | grep -E "^test result" | awk '{p+=$4; f+=$6} END {print p" passed "f" failed"}')
-cp $demo crates/$CR/tests/demo.rs
-WITH=$(cargo test --offline -p $CR --test demo 2>&1 | grep -E "^test result" | tail -1)
-git checkout -q -- . ; 
-WITHOUT=$(cargo test --offline -p $CR --test demo 2>&1 | grep -E "^test result" | tail -1)
-rm -f crates/$CR/tests/demo.rs; git clean -fdq -e target
-echo "$ID/$X [$CR]: suite: $SUITE | demo with change: $WITH | demo without: $WITHOUT"
+run_demo() {
+  if [ -f $D/demo.sh ]; then
+    sh $D/demo.sh $WT 2>&1 | grep -E "^test result|exit|distinct" | tail -2 | tr '\n' ' '
+  else
+    demo=$D/demo.rs
+    if grep -q "CARGO_BIN_EXE_tx3c\|tx3c" $demo && [ "$ID" = "C17" -o "$ID" = "C18" ]; then CR=tx3c; DIR=bin/tx3c;
+    elif grep -q "tx3_cardano" $demo; then CR=tx3-cardano; DIR=crates/$CR; elif grep -q "tx3_resolver" $demo; then CR=tx3-resolver; DIR=crates/$CR; elif grep -q "tx3_lang" $demo; then CR=tx3-lang; DIR=crates/$CR; else CR=tx3-tir; DIR=crates/$CR; fi
+    mkdir -p $DIR/tests; cp $demo $DIR/tests/demo.rs
+    timeout 600 cargo test --offline -p $CR --test demo 2>&1 | grep -E "^test result|SIGABRT|overflowed" | tail -1 | tr '\n' ' '
+    rm -f $DIR/tests/demo.rs
+  fi
+}
+WITH=$(run_demo)
+git checkout -q -- . ; git clean -fdq -e target
+WITHOUT=$(run_demo)
+git checkout -q -- . ; git clean -fdq -e target
+echo "$ID/$X: suite: $SUITE | demo with change: $WITH | demo without: $WITHOUT"
